@@ -20,3 +20,7 @@ def fill(register, E1):
              "Every feasible path of the real Translate/TranslateOrigin/Scale/Rotate*/AffineTransform code and of the matrix builders is executed symbolically for trees of n<=2 (quick) / 3 (thorough) nodes with real-valued coordinates, parameters, any angle (cos,sin) and any unit axis; the affine-map obligations (centre fixed, isometry, stated angle right-handed, inverse restores, pid/type/r/extra untouched, input untouched) are decided by z3 NRA for the continuum of values, which tests with a handful of numbers cannot do. Bounded in node count only; the maps act node-wise.",
              NOTE + "; unit axis assumed for Rotate; formatting of symbolic numbers in repr strings stubbed",
              E1, "5/C12")
+    register("C18",
+             "(a) DisjointSetUnion: ONE union/find/is_same_set from an ARBITRARY valid state (every parent-pointer forest on n<=4/5 elements, ranks symbolic integers constrained only by the representation invariant) re-establishes the invariant and updates the partition exactly as the merge of two classes - an inductive step that covers histories of any length - plus every history of <=3-4 operations from __init__. (b) is_single_root / has_cyclic / is_sorted / is_bifurcate on EVERY function {0..n-1} -> {none}+{0..n-1} (forests, cycles, self-loops; n<=4 quick / 5 thorough; id bases 0/1/5) against naive graph search. (c) mark_roots_as_somas / link_roots_to_nearest / reset_index and read_swc(fix_roots=off|somas|nearest) on every forest with >=2 roots, with symbolic real coordinates for the nearest-node choice (decided by z3 over sqrt distances).",
+             NOTE + "; general position assumed for 'nearest'; has_cyclic/is_sorted on their documented domain", E1, "5/C18")
+
